@@ -100,6 +100,13 @@ def mmra : Handler
     | none => none
     | some none => some "panic"
     | some (some a) => runHist a steps
+  -- `bhist <start> (known;[(index;leaf;[path]),…]) <step> …`: a history on an accumulator with a LARGE leaf count; the
+  -- second argument (the materialised leafs, for the harness's from-scratch oracle) is ignored by the model
+  | "bhist", st :: _known :: steps =>
+    match start? st with
+    | none => none
+    | some none => some "panic"
+    | some (some a) => runHist a steps
   | "bag", [peaks] => do
       let ps ← peaks.natListList?
       pure ("ok:" ++ fmtList (bag_peaks H hashZero ps))
